@@ -6,7 +6,13 @@ CONSTANTS MaxDepth, Keys, Vals, Names
 VARIABLES st, hist
 vars == <<st, hist>>
 
-Setup == << CreateTable("T1", << PkCol("ID", "INTEGER"), ColDef("V", "INTEGER") >>) >>
+\* one secondary index exists from the start and can be dropped / re-created inside a transaction: the
+\* index registry and the index contents are part of what ROLLBACK / ROLLBACK TO must restore (the harness
+\* logs the contents of every index after every statement, TraceEngine!IndexInv)
+IdxCol(c, dir, plen) == [c |-> c, dir |-> dir, plen |-> plen]
+CreateIV == [a |-> "ci", n |-> "IV", t |-> "T1", cols |-> <<IdxCol("V", "asc", 0)>>, uq |-> FALSE]
+DropIV   == [a |-> "di", n |-> "IV"]
+Setup == << CreateTable("T1", << PkCol("ID", "INTEGER"), ColDef("V", "INTEGER") >>), CreateIV >>
 RECURSIVE Run(_,_)
 Run(s, as) == IF as = <<>> THEN s ELSE Run(Apply(s, Head(as)).st, Tail(as))
 
@@ -15,6 +21,7 @@ Alphabet ==
       { InsertV("T1", << <<I(k), I(v)>> >>) : k \in Keys, v \in Vals }
  \cup { UpdateA("T1", << [c |-> "V", e |-> Lit(I(v))] >>, IdEq(k)) : k \in Keys, v \in Vals }
  \cup { DeleteA("T1", IdEq(k)) : k \in Keys }
+ \cup { CreateIV, DropIV }
  \cup { [a |-> x] : x \in {"begin", "commit", "rollback"} }
  \cup { [a |-> x, n |-> n] : x \in {"sp", "rollto", "release"}, n \in Names }
 
